@@ -8,8 +8,11 @@ from .format_props import specs_keys
 def check(tier, seed):
     d = Decision("C13", tier, seed)
     d.add_units(fold_canaries(run_units(specs_product(tier) + specs_evals(tier) + specs_wiring(tier) + specs_keys(tier))))
-    d.add_lean(NAT_LEAN + NAT_LEAN_NH)
+    d.add_lean(NAT_LEAN + NAT_LEAN_NH + ["PV.Laws.scaleHom", "PV.Laws.scale_law", "PV.Bridge.coeff_mul_blocks"])
     d.assumptions += [NAT_NOTE,
+                      "scale law: fully mechanised for the concrete model (PV.Laws.scale_law: for block series over any coefficient algebra with a block structure, rational scale factors, "
+                      "any number of parameters, order n of H_tilde, U, U^dagger is multiplied by prod_k c_k^(n_k)); real / complex scale factors and the remaining laws are instances of "
+                      "naturality whose homomorphism property is not mechanised:",
                       INSTANCE_NOTE + "scaling lambda_k -> c_k lambda_k, identifying two parameters, permuting parameters, adjoining an unused parameter and "
                       "lambda -> lambda^p are order-filtration preserving ring homomorphisms of multivariate power series over the block algebra that act on "
                       "coefficients only through the order index, hence commute with adjoint and with the kept/eliminated split",
